@@ -191,6 +191,38 @@ fn zstviews<N: ArrayLength>() {
         (n as u64) >> 32, (n as u64) & 0xffff_ffff, views.join(","), exact_ok && from_ok && tryfrom_ok, short_err && short_panics, long_err);
 }
 
+/// the by-value iterator over arrays of zero-sized elements longer than 32 bits / isize::MAX (C06): only O(1) steps;
+/// every length is recorded as its DEFICIT N - len (wrapping), a small number when right
+fn zstiter<N: ArrayLength>() {
+    let n = N::USIZE;
+    let a: GenericArray<(), N> = unsafe { GenericArray::assume_init(GenericArray::<(), N>::uninit()) };
+    let mut it = a.into_iter();
+    let mut steps: Vec<String> = Vec::new();
+    // (TLC's integers have 32 bits: anything that is not small is recorded as -1 rather than left to wrap)
+    let def = |x: usize| { let d = n.wrapping_sub(x); if d > (1 << 30) { -1 } else { d as i64 } };
+    macro_rules! step {
+        ($name:expr, $arg:expr, $some:expr) => {{
+            let some: bool = $some;
+            let (lo, hi) = it.size_hint();
+            steps.push(format!("{{\"op\":\"{}\",\"arg\":{},\"some\":{},\"len\":{},\"lo\":{},\"hi\":{},\"slice\":{},\"mslice\":{}}}",
+                $name, $arg, some, def(it.len()), def(lo), hi.map(def).unwrap_or(-1), def(it.as_slice().len()), def(it.as_mut_slice().len())));
+        }};
+    }
+    step!("start", 0, true);
+    step!("next", 0, it.next().is_some());
+    step!("next_back", 0, it.next_back().is_some());
+    step!("nth", 0, it.nth(0).is_some());
+    step!("nth", 7, it.nth(7).is_some());
+    step!("nth_back", 0, it.nth_back(0).is_some());
+    step!("nth_back", 1000, it.nth_back(1000).is_some());
+    step!("nth", 65536, it.nth(65536).is_some());
+    step!("next", 0, it.next().is_some());
+    let count = def(it.count());
+    let b: GenericArray<(), N> = unsafe { GenericArray::assume_init(GenericArray::<(), N>::uninit()) };
+    let last_some = b.into_iter().last().is_some();
+    ev!("\"ev\":\"zstiter\",\"n_hi\":{},\"n_lo\":{},\"steps\":[{}],\"count\":{},\"last_some\":{}", (n as u64) >> 32, (n as u64) & 0xffff_ffff, steps.join(","), count, last_some);
+}
+
 pub fn run_case(scn: &J) {
     // with d.rec the allocator calls of the construction are part of the trace (layouts of multi-MiB blocks)
     let rec = scn["d"]["rec"].as_bool().unwrap_or(false);
@@ -202,7 +234,7 @@ pub fn run_case(scn: &J) {
     let op = scn["d"]["op"].as_str().unwrap().to_string();
     let shape = scn["d"]["shape"].as_str().unwrap().to_string();
     let arg = scn["d"]["arg"].as_u64().unwrap_or(0) as usize;
-    if op == "bigseq" || op == "bigserde" || op == "zsthuge" || op == "zstviews" {
+    if op == "bigseq" || op == "bigserde" || op == "zsthuge" || op == "zstviews" || op == "zstiter" {
         use generic_array::typenum::{Sum, U1, U2, U2048, U3, U4096, U5, U7, U8192, U4294967296, U4611686018427387904, U9223372036854775807, U9223372036854775808};
         let sub = scn["d"]["sub"].as_str().unwrap_or("").to_string();
         let h = std::thread::Builder::new()
@@ -217,6 +249,10 @@ pub fn run_case(scn: &J) {
                 ("zsthuge", "2") => zsthuge::<U2>(&sub),
                 ("zsthuge", "3") => zsthuge::<U3>(&sub),
                 ("zsthuge", "7") => zsthuge::<U7>(&sub),
+                ("zstiter", "2^32") => zstiter::<U4294967296>(),
+                ("zstiter", "2^32+5") => zstiter::<Sum<U4294967296, U5>>(),
+                ("zstiter", "2^63") => zstiter::<U9223372036854775808>(),
+                ("zstiter", "2^64-1") => zstiter::<Sum<U9223372036854775808, U9223372036854775807>>(),
                 ("zstviews", "2^32") => zstviews::<U4294967296>(),
                 ("zstviews", "2^62") => zstviews::<U4611686018427387904>(),
                 ("zstviews", "2^63-1") => zstviews::<U9223372036854775807>(),
